@@ -189,6 +189,7 @@ type FX struct {
 	anteCovers map[string][]T // per ensures label: (path ∧ antecedent) at each return
 	anteOrder  []string
 	labels *labelState
+	presetLabels []label // labels of the arguments at a call site, for the scan of a contract-less callee
 	dynAssume T
 	stampN   int64
 	privCache map[*ssa.Alloc]bool
